@@ -255,7 +255,9 @@ func (k *checker) parses(i int, gen, text string, rt rootType) bool {
 
 func (k *checker) render(i int, r *rand.Rand) {
 	c := k.c
-	switch sub := r.IntN(10); {
+	switch sub := r.IntN(12); {
+	case sub >= 10:
+		k.reused(i, r)
 	case sub < 4: // payload and signature: arbitrary bytes
 		e := &epb.VMLaunchEndorsement{SerializedUefiGolden: rawBytes(r), Signature: rawBytes(r)}
 		if r.IntN(8) == 0 {
@@ -409,4 +411,142 @@ func (k *checker) render(i int, r *rand.Rand) {
 		}
 		c.End(i)
 	}
+}
+
+// formOf names the rendering a (Form, writer) pair must produce, in the terms of renderForms.
+func formOf(bf gcetcbendorsement.BytesForm, term bool) form {
+	for _, f := range renderForms {
+		if f.form == bf && (bf != gcetcbendorsement.BytesAuto || f.term == term) {
+			f.term = term
+			return f
+		}
+	}
+	panic("c19: no such form")
+}
+
+// reused: one long-lived options value (*Inspect inside one context, or *MaskOptions) is kept
+// across a short sequence of calls while the caller swaps the writer between a terminal and a
+// non-terminal one. Every step is judged like a single call (auto is decided by the writer of
+// *that* step), and the options value must come back with the Form the caller put in.
+func (k *checker) reused(i int, r *rand.Rand) {
+	c := k.c
+	bf := []gcetcbendorsement.BytesForm{gcetcbendorsement.BytesAuto, gcetcbendorsement.BytesAuto, gcetcbendorsement.BytesAuto,
+		gcetcbendorsement.BytesRaw, gcetcbendorsement.BytesHex, gcetcbendorsement.BytesBase64}[r.IntN(6)]
+	g := pathref.RandMessage(r, rtGolden.mt)
+	payload, err := proto.MarshalOptions{Deterministic: true}.Marshal(g.Interface())
+	dec := rtGolden.mt.New()
+	if err != nil || proto.Unmarshal(payload, dec.Interface()) != nil {
+		c.Note("render: golden round trip failed")
+		return
+	}
+	e := &epb.VMLaunchEndorsement{SerializedUefiGolden: payload, Signature: rawBytes(r)}
+	var gp, tp [][]pathref.Step
+	bytesPaths(dec, nil, &gp, 0)
+	tm := pathref.RandMessage(r, rtTest.mt)
+	bytesPaths(tm, nil, &tp, 0)
+	// writer kinds per step: at least one switch, so that a decision cached at step n shows at n+1
+	n := 3 + r.IntN(4)
+	terms := make([]bool, n)
+	for j := range terms {
+		terms[j] = r.IntN(2) == 0
+	}
+	if same := func() bool {
+		for _, t := range terms {
+			if t != terms[0] {
+				return false
+			}
+		}
+		return true
+	}(); same {
+		terms[n-1] = !terms[0]
+	}
+	holder := "Inspect"
+	if r.IntN(3) == 0 {
+		holder = "MaskOptions"
+	}
+	gen := fmt.Sprintf("render/reused-%s/form=%s/steps=%d", holder, formOf(bf, false).cli, n)
+	c.Begin(i, gen, "Inspect*/MaskOptions.Mask on one options value", payload)
+	c.Count("reused-options-sequences/"+holder+"/"+formOf(bf, false).cli, 1)
+	sawTerminal := false
+	if holder == "Inspect" {
+		insp := &gcetcbendorsement.Inspect{Form: bf}
+		ctx := gcetcbendorsement.WithInspect(context.Background(), insp)
+		for j := 0; j < n; j++ {
+			w := &recWriter{term: terms[j]}
+			insp.Writer = w // the caller redirects the output; the options value stays the same
+			ops := []string{"Payload", "Signature"}
+			if len(gp) > 0 {
+				ops = append(ops, "Mask", "Mask")
+			}
+			op := ops[r.IntN(len(ops))]
+			var want []byte
+			var call func() error
+			switch op {
+			case "Payload":
+				want, call = e.SerializedUefiGolden, func() error { return gcetcbendorsement.InspectPayload(ctx, e) }
+			case "Signature":
+				want, call = e.Signature, func() error { return gcetcbendorsement.InspectSignature(ctx, e) }
+			default:
+				steps := gp[r.IntN(len(gp))]
+				text, _ := pathref.Render(r, "", steps)
+				want = pathref.Walk(dec, steps).Last().Bytes()
+				call = func() error { return gcetcbendorsement.InspectMask(ctx, e, &fmpb.FieldMask{Paths: []string{text}}) }
+			}
+			var err error
+			sgen := fmt.Sprintf("%s/step%d=%s,terminal=%v", gen, j, op, terms[j])
+			gd := k.guard(i, "Inspect"+op, sgen, len(want), func() { err = call() })
+			if gd.Panicked {
+				continue
+			}
+			if err != nil {
+				c.Oracle(i, "Inspect"+op, "rendering-failed", sgen, "step %d of a sequence on one *Inspect: writing %d bytes to an in-memory writer failed: %v", j, len(want), err)
+				continue
+			}
+			k.checkBytes(i, "Inspect"+op, sgen, formOf(bf, terms[j]), want, w.buf.Bytes())
+			if bf == gcetcbendorsement.BytesAuto && !terms[j] && sawTerminal {
+				k.reusedSwitch++
+			}
+			sawTerminal = sawTerminal || terms[j]
+		}
+		if insp.Form != bf {
+			c.Violate(core.Violation{Kind: "oracle", Entry: "Inspect (reused options)", Site: "callers-inspect-options-modified", Gen: gen, Case: i,
+				Detail: fmt.Sprintf("the caller's Inspect.Form was %d (%s) before a sequence of %d Inspect* calls and is %d after it", bf, formOf(bf, false).cli, n, insp.Form)})
+		}
+	} else {
+		opts := &gcetcbendorsement.MaskOptions{BytesForm: bf}
+		for j := 0; j < n; j++ {
+			w := &recWriter{term: terms[j]}
+			opts.Writer = w
+			var msg protoreflect.Message
+			var paths [][]pathref.Step
+			if len(tp) > 0 && (len(gp) == 0 || r.IntN(2) == 0) {
+				msg, paths = tm, tp
+			} else if len(gp) > 0 {
+				msg, paths = dec, gp
+			} else {
+				continue
+			}
+			steps := paths[r.IntN(len(paths))]
+			text, _ := pathref.Render(r, "", steps)
+			wk := pathref.Walk(msg, steps)
+			sgen := fmt.Sprintf("%s/step%d=Mask,terminal=%v", gen, j, terms[j])
+			parses := k.parses(i, sgen, text, rootType{mt: msg.Type()})
+			var err error
+			gd := k.guard(i, "MaskOptions.Mask", sgen, len(text), func() { err = opts.Mask(msg.Interface(), &fmpb.FieldMask{Paths: []string{text}}) })
+			if gd.Panicked {
+				continue
+			}
+			k.judgeMask(i, "MaskOptions.Mask", sgen, text, parses, msg, wk, formOf(bf, terms[j]), w.buf.Bytes(), err)
+			if err == nil && bf == gcetcbendorsement.BytesAuto && !terms[j] && sawTerminal {
+				k.reusedSwitch++
+			}
+			sawTerminal = sawTerminal || terms[j]
+		}
+		if opts.BytesForm != bf {
+			c.Violate(core.Violation{Kind: "oracle", Entry: "MaskOptions (reused options)", Site: "callers-inspect-options-modified", Gen: gen, Case: i,
+				Detail: fmt.Sprintf("the caller's MaskOptions.BytesForm was %d before a sequence of %d Mask calls and is %d after it", bf, n, opts.BytesForm)})
+		}
+	}
+	c.Cell("render|reused-%s|%s|steps=%d", holder, formOf(bf, false).cli, n)
+	c.End(i)
 }
